@@ -257,6 +257,7 @@ def run_case(case):
         # ------- crop path
         bkw = {case["batch"][0]: case["batch"][1]} if case.get("batch") else {}
         models.LOG.clear()
+        onlooker = None
         with under_test("sow"):
             if case.get("ctor_shuffle"):
                 # (for cases and samples too: the crop's own setting is what
@@ -282,6 +283,11 @@ def run_case(case):
                                    combos=sub_combos, verbosity=0)
                 str(crop), crop.num_results, crop.missing_results()
                 crop.is_ready_to_reap()
+                if case.get("onlooker"):
+                    # somebody opens the crop by name now, looks at it, and
+                    # will be the one who reaps it after the real sow
+                    onlooker = x.Crop(name="c6", parent_dir=main)
+                    str(onlooker), onlooker.num_results
                 if case["decoy_sow"] == "reload":
                     # the real sow is done by somebody who only knows the
                     # crop's name and directory (farmer unpickled from it)
@@ -347,6 +353,9 @@ def run_case(case):
         if case.get("reload_before_reap"):
             with under_test("reload crop by name"):
                 crop = x.Crop(name="c6", parent_dir=main)
+            reloaded = True
+        if onlooker is not None:
+            crop = onlooker
             reloaded = True
         farmer_now = crop.farmer
         ropts = {}
@@ -525,6 +534,7 @@ def strategy(draw):
             "dname": draw(st.sampled_from(["data.h5", "data", "res.dmp"])),
             "decoy_sow": draw(st.sampled_from([False, False, True,
                                                "reload"])),
+            "onlooker": draw(st.booleans()),
             "init_full": draw(st.sampled_from([False, True])),
             "grow_workers": draw(st.sampled_from([False, False, False,
                                                   True])),
